@@ -177,5 +177,102 @@ Definition conv_wrap : unit -> symbol -> unit * string :=
 (* a converter that numbers its calls *)
 Definition conv_count : nat -> symbol -> nat * string :=
   fun n s => (S n, "# call " ++ string_of_Z (Z.of_nat n) ++ nl_s ++ opt_str (scode s)).
+(* a converter whose output does not compile (guard class of the build_model fallback finding) *)
+Definition conv_broken : unit -> symbol -> unit * string := stateless (fun _ => "x = (").
 (* a converter that returns nothing *)
 Definition conv_empty : unit -> symbol -> unit * string := stateless (fun _ => "").
+
+(* ---------- the two templates differ by their type hints only ---------- *)
+(* str.replace(from, to) for a non-empty `from`; fuel = length of the text *)
+Fixpoint replace_all_go (fuel : nat) (from to s : string) : string :=
+  match fuel with
+  | O => s
+  | S f =>
+    match s with
+    | "" => ""
+    | String c r =>
+      match prefix_rest from s with
+      | Some rest => to ++ replace_all_go f from to rest
+      | None => String c (replace_all_go f from to r)
+      end
+    end
+  end.
+Definition replace_all (from to s : string) : string := replace_all_go (String.length s) from to s.
+Definition replace_many (l : list (string * string)) (s : string) : string :=
+  fold_left (fun acc ft => replace_all (fst ft) (snd ft) acc) l s.
+(* annotations of a `def` line, and of a class-attribute line *)
+Definition def_hints : list (string * string) :=
+  [(": str = ", "="); (": bool = ", "="); (": Optional[int] = ", "="); (": int", ""); (": Any", ""); (" -> None", "")].
+Definition attr_hints : list (string * string) := [(": List[str] = ", " = "); (": int = ", " = ")].
+Definition erase_line (line : string) : string :=
+  if startswith "def " (lstrip_by (fun c => Ascii.eqb c " ") line) then replace_many def_hints line
+  else replace_many attr_hints line.
+Fixpoint split_nl (cur : string) (s : string) : list string :=       (* text.split('\n'); cur reversed *)
+  match s with
+  | "" => [rev_str cur ""]
+  | String c r => if Ascii.eqb c nl then rev_str cur "" :: split_nl "" r else split_nl (String c cur) r
+  end.
+Definition erase_hints (tpl : string) : string := join_nl (map erase_line (split_nl "" tpl)).
+
+(* ---------- build_model: exec of the text, CODE, and the SyntaxError fallback ---------- *)
+Inductive exec_res (Cls : Type) : Type := ExecOk (c : Cls) | ExecSyntaxError | ExecOther (e : exn).
+Arguments ExecOk {Cls} c.
+Arguments ExecSyntaxError {Cls}.
+Arguments ExecOther {Cls} e.
+Inductive build_res (Cls : Type) : Type :=
+| Built (c : Cls) (code : string)          (* the class and its CODE attribute *)
+| BuildError                               (* some single-symbol definition failed with SyntaxError *)
+| BuildKeyError                            (* locals_['Model'] missing: nothing was ever executed successfully *)
+| BuildRaise (e : exn)
+| BuildUnmodelled.
+Arguments Built {Cls} c code.
+Arguments BuildError {Cls}.
+Arguments BuildKeyError {Cls}.
+Arguments BuildRaise {Cls} e.
+Arguments BuildUnmodelled {Cls}.
+
+Section BuildModel.
+  Variable St Cls : Type.
+  Variable conv : St -> symbol -> St * string.
+  Variable exec : string -> exec_res Cls.          (* CPython's exec of a class text in a namespace with BaseModel *)
+
+  (* the fallback loop: for s in symbols_with_equations: exec(build_model_definition([s])) with the DEFAULT options,
+     converter and template; last = the class bound to locals_['Model'] so far *)
+  Fixpoint retry_each (syms : list symbol) (last : option Cls) (failed : bool) : option Cls * bool + exn :=
+    match syms with
+    | [] => inl (last, failed)
+    | s :: r =>
+      match sequation s with
+      | None => retry_each r last failed
+      | Some _ =>
+        match snd (build_def unit conv_default tt [s] default_opts true) with
+        | POk text =>
+          match exec text with
+          | ExecOk c => retry_each r (Some c) failed
+          | ExecSyntaxError => retry_each r last true
+          | ExecOther e => inr e
+          end
+        | PErr e => inr e
+        | PUnmodelled => inr OtherError
+        end
+      end
+    end.
+
+  Definition build_model_M (st : St) (syms : list symbol) (o : bopts) (with_type_hints : bool) : St * build_res Cls :=
+    match build_def St conv st syms o with_type_hints with
+    | (st', PErr e) => (st', BuildRaise e)
+    | (st', PUnmodelled) => (st', BuildUnmodelled)
+    | (st', POk text) =>
+      match exec text with
+      | ExecOk c => (st', Built c text)
+      | ExecOther e => (st', BuildRaise e)
+      | ExecSyntaxError =>
+        match retry_each syms None false with
+        | inr e => (st', BuildRaise e)
+        | inl (_, true) => (st', BuildError)
+        | inl (Some c, false) => (st', Built c text)        (* the class of the LAST single symbol, CODE = the full text *)
+        | inl (None, false) => (st', BuildKeyError)
+        end
+      end
+    end.
+End BuildModel.
